@@ -68,3 +68,124 @@ func c15F8(idx int, r *Result) {
 	}
 	r.Outcome("rejected")
 }
+
+// C15 F9, one module imported along several paths: `shared` is imported by `a`, by `b` and (in
+// some variants) by main itself. It is one module with one set of globals: what `a` does to the
+// globals of `shared` is what `b` and main see, in every order of the import statements.
+
+var c15DiamondOrders = [][]string{{"a", "b"}, {"b", "a"}, {"shared", "a", "b"}, {"a", "b", "shared"}, {"a", "shared", "b"}}
+
+func c15F9Count() int { return len(c15DiamondOrders) * 2 }
+
+func c15F9(idx int, r *Result) {
+	d := radix(idx, 2, len(c15DiamondOrders))
+	chain, order := d[0] == 1, c15DiamondOrders[d[1]]
+	mods := map[string]string{
+		"shared": "pub let log = [0];\nlet count = 0;\npub fn bump() -> int {\n    count += 1;\n    count\n}\nfn main() {}\n",
+		"a":      "import { log, bump } from shared;\npub fn fa() -> int {\n    log.push(1);\n    bump()\n}\nfn main() {}\n",
+		"b":      "import { log, bump } from shared;\npub fn fb() -> int {\n    log.push(2);\n    bump()\n}\nfn main() {}\n",
+	}
+	if chain {
+		// b reaches shared through a as well
+		mods["b"] = "import { fa } from a;\nimport { log, bump } from shared;\npub fn fb() -> int {\n    log.push(2);\n    fa() * 10 + bump()\n}\nfn main() {}\n"
+	}
+	var imports []string
+	direct := false
+	for _, m := range order {
+		switch m {
+		case "a":
+			imports = append(imports, "import { fa } from a;")
+		case "b":
+			imports = append(imports, "import { fb } from b;")
+		case "shared":
+			imports = append(imports, "import { log, bump } from shared;")
+			direct = true
+		}
+	}
+	body := "    println(fa());\n    println(fb());\n"
+	want := "1\n2\n"
+	if chain {
+		want = "1\n23\n" // fb: push 2, fa() pushes 1 and bumps to 2, then bump() gives 3
+	}
+	if direct {
+		body += "    println(log);\n    println(bump());\n"
+		if chain {
+			want += "[0, 1, 2, 1]\n4\n"
+		} else {
+			want += "[0, 1, 2]\n3\n"
+		}
+	}
+	mods["main"] = strings.Join(imports, "\n") + "\nfn main() {\n" + body + "    println(\"end\");\n}\n"
+	want += "end\n"
+	tags := []string{"module-imported-along-two-paths", "imports:" + strings.Join(order, ","), fmt.Sprintf("chain:%v", chain)}
+	text := detText(detProg{Mods: mods})
+	r.Sample(text)
+	a := Analyze(mods, true)
+	r.Trans(1)
+	if a.Obs.Class == "HOST-PANIC" {
+		r.Note("analyzer-panic(C05)", 1)
+		return
+	}
+	if !a.Obs.Accepted() {
+		r.Fail("HARNESS:diamond program not accepted", tags, text, a.Obs.String())
+		return
+	}
+	for _, b := range backendNames {
+		o := runOn(b, a, r)
+		r.Distinct(fmt.Sprintf("diamond|%s|%v|%s|%s", strings.Join(order, ","), chain, b, o.Key()))
+		r.Outcome(b + ":" + o.Class)
+		if crashClass(o) != "" {
+			r.Note("diamond:crash(C02)", 1)
+			continue
+		}
+		if o.Class != "ok" || o.Out != want {
+			r.Fail("MODULE:a module imported along two paths has two sets of globals", append([]string{"backend:" + b}, tags...), text, fmt.Sprintf("%s: class=%s printed %q, expected %q", b, o.Class, o.Out, want))
+		}
+	}
+}
+
+// C15 F10, a function literal of another module that calls back into the module of its caller:
+// `a.make()` returns a literal; main calls it with one of its own functions as the callback. The
+// callback runs against the globals of main, whichever module created the literal that calls it.
+
+var c15CallbackKinds = []struct{ name, cb, want string }{
+	{"callback-reads-a-global-of-its-module", "let mx = 10;\nfn scaled(n: int) -> int { n * mx }\n", "31\n"},
+	{"callback-writes-a-global-of-its-module", "let mx = 10;\nfn scaled(n: int) -> int { mx += n; mx }\n", "14\n"},
+	{"callback-calls-a-function-of-its-module", "fn helper(n: int) -> int { n * 10 }\nfn scaled(n: int) -> int { helper(n) }\n", "31\n"},
+	{"callback-uses-only-its-parameter", "fn scaled(n: int) -> int { n * 10 }\n", "31\n"},
+}
+
+func c15F10Count() int { return len(c15CallbackKinds) * 2 }
+
+func c15F10(idx int, r *Result) {
+	d := radix(idx, 2, len(c15CallbackKinds))
+	viaValue, kind := d[0] == 1, c15CallbackKinds[d[1]]
+	mods := map[string]string{"a": "pub fn make() -> fn(cb: fn(n: int) -> int) -> int {\n    fn(cb: fn(n: int) -> int) -> int { cb(3) + 1 }\n}\nfn main() {}\n"}
+	call := "    let c = make();\n    println(c(scaled));\n"
+	if viaValue {
+		call = "    let c = make();\n    let s = scaled;\n    println(c(s));\n"
+	}
+	mods["main"] = "import { make } from a;\n" + kind.cb + "fn main() {\n" + call + "    println(\"end\");\n}\n"
+	want := kind.want + "end\n"
+	tags := []string{"literal-of-another-module-calls-back", "kind:" + kind.name, fmt.Sprintf("callback-through-a-variable:%v", viaValue)}
+	text := detText(detProg{Mods: mods})
+	r.Sample(text)
+	a := Analyze(mods, true)
+	r.Trans(1)
+	if a.Obs.Class == "HOST-PANIC" {
+		r.Note("analyzer-panic(C05)", 1)
+		return
+	}
+	if !a.Obs.Accepted() {
+		r.Fail("HARNESS:callback program not accepted", tags, text, a.Obs.String())
+		return
+	}
+	for _, b := range backendNames {
+		o := runOn(b, a, r)
+		r.Distinct(fmt.Sprintf("callback|%s|%v|%s|%s", kind.name, viaValue, b, o.Key()))
+		r.Outcome(b + ":" + o.Class)
+		if o.Class != "ok" || o.Out != want {
+			r.Fail("MODULE:a callback does not run against the globals of its own module", append([]string{"backend:" + b}, tags...), text, fmt.Sprintf("%s: class=%s printed %q, expected %q; %s", b, o.Class, o.Out, want, o.String()))
+		}
+	}
+}
